@@ -53,7 +53,7 @@ def lanes(addr, size, nbytes=4):
 
 
 class AxiHarness(Harness):
-    def __init__(self, writes=(), reads=(), rmw=False, depth=2, base_address=0, wmin=3, rmin=6, qmax=3):
+    def __init__(self, writes=(), reads=(), rmw=False, depth=2, base_address=0, wmin=3, rmin=6, qmax=3, decoupled=False):
         from litedram.common import LiteDRAMNativePort
         from litedram.frontend.axi import LiteDRAMAXIPort, LiteDRAMAXI2Native
         self.axi = axi = LiteDRAMAXIPort(data_width=32, address_width=8, id_width=1)
@@ -62,7 +62,7 @@ class AxiHarness(Harness):
         rd = Responder.reads([port]) + [axi.aw.ready, axi.w.ready, axi.ar.ready, axi.b.valid, axi.b.id, axi.b.resp, axi.r.valid, axi.r.data, axi.r.id, axi.r.last, axi.r.resp]
         self.c = c = fhdl.compile_harness(dut, rd)
         self.base_address = base_address; self.rmw = bool(rmw); self._hist = {}; self.depth = depth
-        self.resp = Responder(c, [port], wmin=wmin, rmin=rmin, qmax=qmax, mem_init=self.mem_init, addr_ok=lambda p, a: a < NW)
+        self.resp = Responder(c, [port], wmin=wmin, rmin=rmin, qmax=qmax, mem_init=self.mem_init, addr_ok=lambda p, a: a < NW, decoupled=decoupled)
         ii = c.ii
         def idx(ep, names): return {n: ii.get(getattr(ep, n)) for n in names}
         self.i_aw = idx(axi.aw, ["valid", "addr", "burst", "len", "size", "id"]); self.i_ar = idx(axi.ar, ["valid", "addr", "burst", "len", "size", "id"])
@@ -149,7 +149,7 @@ class AxiHarness(Harness):
         return [(a, w, r, br, rr, x) for a in aw_opts for w in w_opts for r in ar_opts for br in (1, 0) for rr in (1, 0) for x in rm]
 
     def describe(self, ch):
-        a, w, r, br, rr, (rb, serve) = ch
+        a, w, r, br, rr, rch = ch; rb, serve = rch[0], rch[1]
         return "aw=%d w=%d ar=%d bready=%d rready=%d | cmd.ready=%d serve=%s" % (a, w, r, br, rr, rb, list(serve))
 
     def drive(self, S, E, ch):
@@ -185,7 +185,9 @@ class AxiHarness(Harness):
             v.detail.update(self._hist); raise
         prog = bool(evs)
         for e in evs:
-            if e[0] == "w": nwd += 1
+            # "handed to the memory": the data strobe of the memory itself, or - on a port behind stream buffering - the hand-over of the beat
+            # to the port's write-data stream (the port keeps command and data order, so a read issued after B still sees the data)
+            if e[0] == ("wbeat" if self.resp.decoupled else "w"): nwd += 1
         awh, wh, arh = a, w, r
         if a and self.r_awready(S, I, O): awn += 1; awh = 0; prog = True
         if w and self.r_wready(S, I, O): wn += 1; wh = 0; prog = True
@@ -227,9 +229,8 @@ class AxiHarness(Harness):
                 self.report("axi.final_memory", "memory after all bursts %s, expected %s" % (["%08x" % x for x in mem], ["%08x" % x for x in fin]), kind="final_memory")
             self.cov["completed"] = self.cov.get("completed", 0) + 1
         ev = 0
-        el = self.resp.eligible(rs[0])
         ao, wo, ro = self.opts(E)
-        coop = ch == (ao[0], wo[0], ro[0], 1, 1, (1 if len(rs[0]) < self.resp.qmax else 0, (el[0],) if el else ()))
+        coop = ch == (ao[0], wo[0], ro[0], 1, 1, self.resp.default_choice(rs))
         if coop and not done: ev |= EV_OUT
         if prog: ev |= EV_PROG
         return (awn, awh, wn, wh, arn, arh, bg, rb, rbeat, nwd, rs2, h_lead, h_behind), ev
@@ -285,6 +286,8 @@ def configs(tier):
         for s in ("incr2", "incr4-strb", "wrap4", "fixed2", "single-partial", "narrow-incr4", "narrow-wrap2", "2w2r", "r-then-w"):
             add("d2", s)
         add("d2-base0x40", "incr2", base_address=0x40)
+        add("d2-streamport", "incr4-strb", decoupled=True)
+        add("d2-streamport", "2w2r", decoupled=True)
         for s in ("incr2", "single-partial", "full-then-partial", "partial-then-full", "fixed2"):
             add("rmw-d2", s, rmw=True)
     else:
